@@ -22,7 +22,7 @@ class C17(PureCheck):
     subst_every = 6
     rule = ("every string of length <=4 (quick) / <=5 (thorough) over the 13-symbol alphabet {a, newline, ESC, 0x9B, '[', "
             "'1', '3', ';', '?', space, 'm', 'H', 'K'} plus seeded random strings of length 5..10 over it and a corpus of "
-            "real-world samples (pygments-style, text that looks like a % / {} format string next to unsupported sequences, ESC[m, 38;5;n, cursor moves, OSC, truncated/nested sequences) and numeric control sequences with every parameter list of <=2 (thorough <=3, plus sampled longer ones) over a 22-number vocabulary (SGR codes supported and not, 38/48/58 selectors cut off at every point, empty parameters); the corpus also as instances of str subclasses whose __str__ is not their characters (a masked secret, a (str, Enum) member); fmtstr and "
+            "real-world samples (pygments-style, text that looks like a % / {} format string next to unsupported sequences, ESC[m, 38;5;n, cursor moves, OSC, truncated/nested sequences) and numeric control sequences with every parameter list of <=2 (thorough <=3, plus sampled longer ones) over a 22-number vocabulary (SGR codes supported and not, 38/48/58 selectors cut off at every point, empty parameters); introducers directly followed by non-ASCII letters (incl. the four that case-fold into ASCII); the corpus also as instances of str subclasses whose __str__ is not their characters (a masked secret, a (str, Enum) member); fmtstr and "
             "FmtStr.from_str alternately; the result text is validated by TLC against the ECMA-48 scanner of Scan.tla. "
             "distinct_nontrivial = distinct inputs containing an introducer (ESC or 0x9B)")
     exhaustive = {"quick": False, "thorough": False}
@@ -63,6 +63,14 @@ class C17(PureCheck):
         for k, s in enumerate(CORPUS + ["a", "ab\nc", "x y", "\x1b[31mred", "m", "Label.ITEM"]):
             for sub in (1, 2):
                 yield {"op": "any", "s": enc.enc_text(s), "via": (k + sub) % 2, "sub": sub}
+        # an introducer (bare or with parameters / intermediates) directly followed by a letter outside ASCII - among them the
+        # four that case-fold into ASCII (dotted I, dotless i, long s, Kelvin sign) and letters with special upper / title forms
+        k = 0
+        for intro in ("\x1b[", "\x9b", "\x1b[1;", "\x1b[3", "\x9b4;5", "\x1b[ ", "\x1b[?2"):
+            for ch in "\u0130\u0131\u017f\u212a\u00df\u01c5\u03c2\u00e9\u212b\uff2d\u0645":
+                k += 1
+                yield {"op": "any", "s": enc.enc_text("to " + intro + ch + "x\x1b[0m."), "via": k % 2}
+                yield {"op": "any", "s": enc.enc_text(intro + ch), "via": (k + 1) % 2}
         for s in CORPUS:
             yield {"op": "any", "s": enc.enc_text(s), "via": 0, "pre": 1}
         # a growing line: every corpus sample of up to 48 characters right after each of its proper prefixes
